@@ -55,7 +55,7 @@ Definition setR {A} (l : list A) (i : Z) (v : A) : res (list A) :=
 Definition in_range {A} (l : list A) (i : Z) : bool := (0 <=? i) && (i <? Z.of_nat (length l)).
 
 (** A heap entry: (index, key, value). *)
-Definition content := (Z * Z * Z)%type.
+Notation content := (Z * Z * Z)%type (only parsing).
 Definition c_idx (c : content) : Z := fst (fst c).
 Definition c_key (c : content) : Z := snd (fst c).
 Definition c_val (c : content) : Z := snd c.
